@@ -19,12 +19,16 @@ RULE = (
     "ids of that workflow whose canonical forms (type, sorted child forms) "
     "are pairwise different and cover exactly the forms stored under that "
     "name; a slice also goes through otel_to_pv(find_unique_graphs=True) on "
-    "a file database. Non-trivial: >=2 traces of equal form under one name "
+    "a file database; a third of the drawn cases additionally place the "
+    "spans on a minute grid, run the three cleaning steps with time_buffer "
+    "in {1,2,3} and demand one representative per shape among the traces "
+    "still stored after cleaning. Non-trivial: >=2 traces of equal form under one name "
     "and >=2 forms overall. Distinct by the serialised case.")
 ASSUMPTIONS = [
     "canonical form = (type, sorted tuple of child forms)",
     "all spans of a trace carry the trace's workflow name (name repair is "
-    "C11's subject), time_buffer = 0 and the stored time span is non-empty",
+    "C11's subject); time_buffer = 0 except in the buffered-window mode, "
+    "where an empty window (ValueError) is counted and skipped",
 ]
 EXHAUSTIVE = ()
 
@@ -118,6 +122,79 @@ def check_case(case, batches=(1, 2, 3, 1000), full=True):
                 store.dispose(h)
     if case.get("via_otel_to_pv"):
         via_otel_to_pv(case, spans)
+    if case.get("window"):
+        return windowed(case)
+    return None
+
+
+MIN = 60 * 10**9
+
+
+def windowed(case):
+    """time_buffer > 0: spans placed on a minute grid, the three cleaning
+    steps run as otel_to_pv runs them, then unique-graph selection.  The
+    expectation is stated over what is *stored* after cleaning (read back
+    from the table), so no window model is needed: whatever cleaning kept
+    must be represented."""
+    w = case["window"]
+    spans = []
+    for ti, (name, tree) in enumerate(case["traces"]):
+        out = []
+        flatten(tree, f"t{ti}", None, out, name, f"job{ti}")
+        tms = w["times"][ti]
+        for k, (sid, parent, typ, job, nm) in enumerate(out):
+            a, d = tms[k % len(tms)]
+            spans.append((sid, parent, typ, job, nm, a * MIN + k,
+                          (a + d) * MIN + k))
+    forms = {f"job{ti}": canon(tree)
+             for ti, (n, tree) in enumerate(case["traces"])}
+    names = {f"job{ti}": n for ti, (n, tree) in enumerate(case["traces"])}
+    events = [store.otel_event(*s) for s in ordered(case, spans, False)]
+    for b in (1, 2, 1000):
+        label = f"time_buffer={w['buffer']} batch_size={b}"
+        h = store.new_holder(batch_size=b, time_buffer=w["buffer"])
+        try:
+            store.ingest(h, events)
+            try:
+                h.remove_inconsistent_jobs()
+                h.remove_jobs_outside_of_time_window()
+                h.update_job_names_by_root_span()
+            except ValueError:
+                return "window_empty"
+            stored = {r["job_id"] for r in store.read_nodes(h)}
+            try:
+                res = h.find_unique_graphs()
+            except Exception as e:
+                raise Violation(f"{label}: find_unique_graphs raised "
+                                f"{type(e).__name__}: {e}")
+            want = {}
+            for j in stored:
+                want.setdefault(names[j], set()).add(forms[j])
+            if set(res) != set(want):
+                raise Violation(
+                    f"{label}: workflows with selected traces "
+                    f"{sorted(res)}, workflows stored after cleaning "
+                    f"{sorted(want)}")
+            for name, ids in res.items():
+                ids = list(ids)
+                bad = [j for j in ids if j not in stored or names[j] != name]
+                if bad:
+                    raise Violation(f"{label}: {bad} selected under {name} "
+                                    "but not stored under it")
+                fs = [forms[j] for j in ids]
+                if len(set(fs)) != len(fs):
+                    raise Violation(f"{label}: workflow {name}: two traces "
+                                    f"of one shape selected: {sorted(ids)}")
+                if set(fs) != want[name]:
+                    raise Violation(
+                        f"{label}: workflow {name}: {len(set(fs))} shapes "
+                        f"represented by {sorted(ids)} but {len(want[name])} "
+                        f"distinct shapes are stored after cleaning "
+                        f"(stored traces: {sorted(stored)})")
+            removed = len(stored) < len(case["traces"])
+        finally:
+            store.dispose(h)
+    return "ok_some_trace_removed" if removed else "ok_all_kept"
 
 
 def via_otel_to_pv(case, spans):
@@ -185,6 +262,8 @@ def classify(case):
         classes.append("same_shape_in_two_workflows")
     if case.get("via_otel_to_pv"):
         classes.append("via_otel_to_pv")
+    if case.get("window"):
+        classes.append("buffered_window")
     return rep and nforms >= 2, classes
 
 
@@ -262,6 +341,16 @@ def case_strategy():
         if draw(st.integers(0, 4)) == 0:
             case["via_otel_to_pv"] = True
             case["pv_batch"] = draw(st.sampled_from([1, 2, 3, 1000]))
+        if draw(st.integers(0, 2)) == 0:
+            # traces inside / outside / straddling a buffered window
+            times = []
+            for _ in traces:
+                base = draw(st.sampled_from([0, 0, 1, 2, 4, 6, 8, 9, 10]))
+                times.append([[base + draw(st.integers(0, 2)),
+                               draw(st.integers(0, 3))]
+                              for _ in range(draw(st.integers(1, 3)))])
+            case["window"] = {"buffer": draw(st.sampled_from([1, 2, 3])),
+                              "times": times}
         return case
 
     return build()
@@ -274,6 +363,10 @@ def shrinker(case):
             c = dict(case)
             c["traces"] = tr[:i] + tr[i + 1:]
             c.pop("order", None)
+            if case.get("window"):
+                w = case["window"]
+                c["window"] = {"buffer": w["buffer"],
+                               "times": w["times"][:i] + w["times"][i + 1:]}
             yield c
     if case.get("order"):
         c = dict(case)
@@ -297,7 +390,9 @@ def run_shard(ctx):
         nt, classes = classify(case)
         ctx.record(case, nt, classes)
         ctx.count("store_rounds", 8)
-        check_case(case)
+        r = check_case(case)
+        if r:
+            ctx.count("window_" + r)
 
     idx = 0
     for case in small_pairs():
